@@ -2025,7 +2025,7 @@ func (self *LockDB) Lock(serverProtocol ServerProtocol, command *protocol.LockCo
 	} else {
 		lockManager.glock.Lock()
 	}
-	if lockManager.lockKey != command.LockKey {
+	if lockManager.lockKey != command.LockKey || atomic.LoadUint32(&lockManager.refCount) == 0xffffffff {
 		lockManager.glock.Unlock()
 		return self.Lock(serverProtocol, command, lockPriorityLevel)
 	}
@@ -2349,7 +2349,7 @@ func (self *LockDB) UnLock(serverProtocol ServerProtocol, command *protocol.Lock
 	} else {
 		lockManager.glock.Lock()
 	}
-	if lockManager.lockKey != command.LockKey {
+	if lockManager.lockKey != command.LockKey || atomic.LoadUint32(&lockManager.refCount) == 0xffffffff {
 		lockManager.glock.Unlock()
 		return self.UnLock(serverProtocol, command, lockPriorityLevel)
 	}
@@ -2956,7 +2956,7 @@ func (self *LockDB) HasLock(command *protocol.LockCommand, aofLockData []byte) b
 	}
 
 	lockManager.glock.LowPriorityLock()
-	for lockManager.lockKey != command.LockKey {
+	for lockManager.lockKey != command.LockKey || atomic.LoadUint32(&lockManager.refCount) == 0xffffffff {
 		lockManager.glock.LowPriorityUnlock()
 		lockManager = self.GetLockManager(command)
 		if lockManager == nil {
